@@ -339,6 +339,10 @@ func record(out string, n int) {
 	lab := []string{"a", "b", "example", "org", "test", "corp", "x1", "sub-2"}
 	dom := func() tok {
 		t := tok{K: "dom", Labels: []string{}, Dot: r.Intn(3) == 0}
+		if r.Intn(12) == 0 {
+			t.Dot = true // the root
+			return t
+		}
 		for k := r.Intn(4); k >= 0; k-- {
 			t.Labels = append(t.Labels, lab[r.Intn(len(lab))])
 		}
